@@ -301,7 +301,7 @@ int POOL_tryAdd(POOL_ctx* ctx, POOL_function function, void* opaque)
 {
     assert(ctx != NULL);
     ZSTD_pthread_mutex_lock(&ctx->queueMutex);
-    if (isQueueFull(ctx)) {
+    if (isQueueFull(ctx) || ctx->shutdown) {   /* a pool that is shutting down drops the job : not a success */
         ZSTD_pthread_mutex_unlock(&ctx->queueMutex);
         return 0;
     }
